@@ -214,7 +214,8 @@ def _tdir(profile, features):
 
 
 def harness_bin(profile="release", features=(), bin_name="core"):
-    return os.path.join(HARNESS_DIR, _tdir(profile, features), "release" if profile == "release" else "debug", bin_name)
+    sub = {"release": "release", "dev": "debug"}.get(profile, profile)     # custom profiles build into target/<profile>
+    return os.path.join(HARNESS_DIR, _tdir(profile, features), sub, bin_name)
 
 
 def build_harness(profile="release", features=(), timeout=1500, bin_name="core"):
@@ -228,6 +229,8 @@ def build_harness(profile="release", features=(), timeout=1500, bin_name="core")
     cmd = ["cargo", "build", "--offline", "--target-dir", _tdir(profile, features), "--bin", bin_name]
     if profile == "release":
         cmd.append("--release")
+    elif profile != "dev":
+        cmd += ["--profile", profile]                      # e.g. dbg0 = unoptimised debug build (harness/Cargo.toml)
     if features:
         cmd += ["--features", ",".join(features)]
     rc, out, dt = sh(cmd, cwd=HARNESS_DIR, timeout=timeout,
